@@ -2,6 +2,7 @@ package checks
 
 import (
 	"bytes"
+	"errors"
 	"fmt"
 	"regexp"
 	"strconv"
@@ -257,6 +258,35 @@ func c19Program(c *core.Ctx, i int64, src []byte) {
 			}
 			c.Count("runs_with_failing_output_writer", 7)
 		}
+		// an output writer that refuses ONE write (the j-th) and works again afterwards: what the library
+		// attempts to write, refused write included, must be what a healthy writer receives
+		if route != 2 && i%4 == 1 && lineChecks {
+			j := int(i/4) % 40
+			for combo := 0; combo < 8; combo++ {
+				d, t, s := combo&4 != 0, combo&2 != 0, combo&1 != 0
+				var lg bytes.Buffer
+				w := &hiccupWriter{failAt: j}
+				opts := []bcl.Option{bcl.OptOutput(w), bcl.OptLogger(&lg), bcl.OptDisasm(d), bcl.OptTrace(t), bcl.OptStats(s)}
+				pan, _ := protect(func() {
+					if route == 0 {
+						if p, err := bcl.Parse(src, "c19", opts...); err == nil {
+							bcl.Execute(p, opts...)
+						}
+					} else {
+						bcl.Interpret(src, opts...)
+					}
+				})
+				c.Eval(1)
+				healthy := c19Route(route, src, dump, d, t, s)
+				want := healthy.outParse + healthy.outExec
+				if pan != "" || string(w.attempted) != want {
+					c.Violation("write-hiccup-changes-output", fmt.Sprintf("%s, options %03b, output writer refusing write %d only: the library attempted %q, a healthy writer receives %q %s", routeName, combo, j+1,
+						core.Trunc(firstDiff(string(w.attempted), want), 300), "", pan), det(fmt.Sprintf("%03b", combo), base))
+					return
+				}
+			}
+			c.Count("runs_with_an_output_writer_refusing_one_write", 8)
+		}
 		c.Count("routes_"+strings.ReplaceAll(routeName, "+", "_"), 1)
 		if base.parseErr {
 			c.Count("rejected_programs", 1)
@@ -268,6 +298,23 @@ func c19Program(c *core.Ctx, i int64, src []byte) {
 	if c.WantSample() && len(src) < 200 {
 		c.Sample(map[string]any{"source": string(src), "routes": 3, "option_combinations": 8})
 	}
+}
+
+// hiccupWriter refuses its failAt-th write (0-based) and takes every other one; attempted keeps all of them.
+type hiccupWriter struct {
+	failAt    int
+	n         int
+	attempted []byte
+}
+
+func (w *hiccupWriter) Write(p []byte) (int, error) {
+	w.attempted = append(w.attempted, p...)
+	k := w.n
+	w.n++
+	if k == w.failAt {
+		return 0, errors.New("output sink not ready")
+	}
+	return len(p), nil
 }
 
 func offsOf(ins []bc.Instr) []int {
@@ -291,7 +338,7 @@ func init() {
 		Level: "exploration",
 		Rule: "metamorphic monitor (options off vs on) + hook ground truth: every program (accepted, rejected by a static error or a token edit, failing at run time) runs through Parse+Execute, Interpret and LoadProg+Execute under all 8 combinations of disassembly, trace and statistics; blocks, binding, error text, log text and the lines printed by the program (introspection lines removed by pattern; programs whose own output matches the patterns count for the result comparison only) must equal the run without options, and no call may panic. " +
 			"The disassembly must list exactly the instruction boundaries found by the independent decoder, each once, in order; the trace must list exactly the pc sequence recorded by the VM hook, with one stack line each, as many as xstats.opsRead. " +
-			"distinct = hash of source; non-trivial = all 8 combinations were compared on at least one route Fixed programs: C10's boundary programs, programs ending in the operand-stack / block-stack overflow errors, block values and 400-byte strings on the stack. Every fourth program also runs with an output writer that fails after k bytes: blocks, binding, error and log must still be the same for all 8 combinations.",
+			"distinct = hash of source; non-trivial = all 8 combinations were compared on at least one route Fixed programs: C10's boundary programs, programs ending in the operand-stack / block-stack overflow errors, block values and 400-byte strings on the stack. Every fourth program also runs with an output writer that fails after k bytes: blocks, binding, error and log must still be the same for all 8 combinations. Another fourth runs with an output writer that refuses exactly one write (the j-th) and recovers: under each of the 8 combinations the bytes the library attempts to write, the refused write included, must equal what a healthy writer receives. Fixed programs also: string constants of 600..2800 bytes made of continuation bytes, 0xFF bytes, cut characters, U+FFFD and multi-byte characters around offsets 512.",
 		Assumptions:   []string{"string values in these programs contain no CR/LF, so introspection text can be separated from program output line by line"},
 		MinNontrivial: 1000,
 		Run: func(c *core.Ctx) {
@@ -308,6 +355,10 @@ func init() {
 					"def a { def b { y = 1 } var p = b z = p and b print 2 }\n",
 					"var s = \"ab\" * 200\nprint s\ndef k { f = s + s; g = f == s }\nprint s + 1\n",
 					"var s = \"0123456789\" * 26\nvar t = s + \"x\"\nprint t == s\nprint t\n",
+					"print \""+strings.Repeat("\\x80", 700)+"\"\n", "var s = \"a"+strings.Repeat("\\x80", 700)+"\"\nprint s\ndef k { f = s }\n",
+					"print \""+strings.Repeat("\\xff", 600)+"\"\n", "print \""+strings.Repeat("\\xe6\\xbc", 400)+"\"\n", "print \""+strings.Repeat("é", 300)+"\"\n",
+					"print \"a"+strings.Repeat("漢", 400)+"\"\n", "print \""+strings.Repeat("\\ufffd", 300)+"\"\n", "print \""+strings.Repeat("x", 511)+"é"+strings.Repeat("y", 600)+"\"\n",
+					"def k \""+strings.Repeat("\\x80", 600)+"\" { f = \""+strings.Repeat("\\xbf", 1100)+"\" }\nprint 1 / 0\n",
 					b.String()+"print 1\n", b.String()+"print v3\n", "print "+strings.Repeat("1+(", 1030)+"1"+strings.Repeat(")", 1030)+"\n",
 					strings.Repeat("def b { x = 1\n", 17)+strings.Repeat("}\n", 17))
 			}
